@@ -234,8 +234,15 @@ Definition scale_on_max_age (e : env) (o : opts) (min : Z) (untainted tainted : 
   else existsb (fun n => o_maxage o <? sat64 (e_now e - n_created n * 1000000000)) untainted.
 
 (* ---------- registration-lag lookup (calculateNewNodeMetrics) ---------- *)
+(* nodeRegTime.Sub(lastScaleOut) > 0, with Go's saturating Sub; a lastScaleOut that was never set is Go's zero time
+   (year 1 = unix second -62135596800), so every node with a real creation time is "newer" and a node whose creation
+   time is itself the zero value is not *)
+Definition go_zero_unix : Z := -62135596800.
 Definition newer_than (last : option Z) (n : node) : bool :=
-  match last with None => true | Some t => 0 <? sat64 (n_created n * 1000000000 - t) end.
+  match last with
+  | None => 0 <? sat64 (n_created n * 1000000000 - go_zero_unix * 1000000000)
+  | Some t => 0 <? sat64 (n_created n * 1000000000 - t)
+  end.
 
 Definition registration_lag_calls (e : env) (st : gstate) (nodes : list node) : list acall :=
   if 0 <? g_delta st then
@@ -311,7 +318,7 @@ Definition scan_act (e : env) (o : opts) (mn maxn : Z) (dry : bool) (st2 : gstat
     let r := scale_up e o maxn dry st2 a1 tainted d2 in
     let st3 := with_last_out (up_state r) (Some (e_now e)) in
     match up_out r with
-    | OutExit => mk (T_exit :: tg) (lag ++ fcalls ++ up_calls r) OutExit 0 st3 (up_asg r)
+    | OutExit => mk (T_exit :: tg) (lag ++ fcalls ++ up_calls r) OutExit 0 (up_state r) (up_asg r)   (* log.Fatalf inside ScaleUp: lastScaleOut is never assigned *)
     | OutErr => mk (T_up :: T_action_err :: tg) (lag ++ fcalls ++ up_calls r) OutOk d2 st3 (up_asg r)
     | _ => mk (T_up :: tg) (lag ++ fcalls ++ up_calls r) OutOk d2 st3 (up_asg r)
     end
